@@ -21,7 +21,8 @@ RULE = ("per-run seed -> knobs + a history of 1-6 writer transactions with every
         "cold reopen each tree is run through 12 access paths {limit=None, limit=1/2/5, scored=False, sortedby (+limit), "
         "docs_for_query, Query.docs per sub-searcher and on the top-level searcher, Results.docs(), terms=True} and compared with the set evaluator over the reference model. "
         "evaluations = (state, query, path) comparisons; non-trivial run = >=1 commit and >=1 query with a non-empty "
-        "expected set; distinct = distinct event-log SHA-256 x query list.")
+        "expected set; distinct = distinct event-log SHA-256 x query list."
+        ' A searcher refresh()ed across the commits is one more access path (40% of runs); knob hashbits (weak hash behind the on-disk hash tables).')
 ASSUMPTIONS = ["the query-shape dimension is sampled workload (input generation); what the simulator contributes is the index state: histories, layouts, deletions, knobs, restarts",
                "documented meanings: Not = live documents minus matches, AndMaybe = first operand, Require = intersection, DisjunctionMax = union, Phrase(slop) = consecutive words at position distance 1..slop",
                "analysis is trusted (terms of a document come from field.index)"]
